@@ -503,7 +503,7 @@ func condenseWHSP(b string) string {
 			if last {
 				last = false
 			}
-			builder.WriteRune(c)
+			builder.WriteByte(b[i])
 		}
 	}
 
